@@ -249,6 +249,18 @@ Definition site_guards (T : tables) (sname : string) (roots : list cls) : bool :
          && all_controlled (t_hier T) (route_at T false sname [] (mkexn c Deliberate))))
     (classes_of (t_hier T)).
 
+(* ---------------------------------------------------------------- "only allowed once" rules *)
+(* `if T in seen: raise C(...)  ...  seen.add(Y)` of __load_data_inputs_to_object (MODE) and Cells.update_pointers
+   (VOL, U, LAT, FILL): the rule rejects the second input only when what is recorded (Y) is what is tested (T) *)
+Record once_rule := mkonce { o_fn : string; o_tested : string; o_added : string; o_cls : cls }.
+Definition once_rule_ok (H : hierarchy) (r : once_rule) : bool :=
+  String.eqb (o_tested r) (o_added r) && existsb (subclass H (o_cls r)) documented.
+Definition once_rules_ok (H : hierarchy) (rules : list once_rule) (required : list string) : bool :=
+  forallb (once_rule_ok H) rules
+  && forallb (fun fn => existsb (fun r => String.eqb (o_fn r) fn) rules) required.
+(* the n-th input of a kind under a rule: accepted when no input of the kind was recorded before *)
+Definition once_second_input_rejected (r : once_rule) : bool := String.eqb (o_tested r) (o_added r).
+
 (* ---------------------------------------------------------------- witnesses (computed) *)
 (* deliberate raise statements whose routed outcome is not controlled: (site, function, class) *)
 Definition raise_leaks (T : tables) : list raise_row :=
